@@ -81,20 +81,28 @@ func c09Bases(st []c09Seg) []int64 {
 	return b
 }
 
-// c09Violated lists the configured limits that the segment list st (ordered,
-// last = newest) violates, per the documented semantics: age = a segment whose
-// last write is older than the cutoff; messages / bytes = the log holds more
-// than the maximum.
+// c09Expired: the segment's last write (= the timestamp of its last message)
+// lies before the age cutoff.
+func c09Expired(s c09Seg, lim c09Limits) bool {
+	return lim.Age > 0 && s.Count > 0 && s.LastTS < c09Now-int64(lim.Age)
+}
+
+// c09Violated lists the configured limits that the log st (ordered, st[0] =
+// oldest, last = newest) violates.  messages / bytes = the log holds more than
+// the maximum.  age = the OLDEST segment of st is past its TTL ("the TTL for
+// stream log segment files, after which they are deleted",
+// documentation/configuration.md): retention works from the oldest end only,
+// so the age limit can only ever be applied to the segment at the oldest end.
+// Last-write times need not be monotonic across segments (a leader change
+// between brokers with skewed clocks): an expired segment BEHIND a segment
+// that is still within its TTL cannot be removed without removing that one
+// (not needed for any limit) or leaving a hole, so it legitimately stays and
+// is not counted as a violation.  With non-decreasing last-write times this is
+// the same as "some segment of st is expired".
 func c09Violated(st []c09Seg, lim c09Limits) []string {
 	var v []string
-	if lim.Age > 0 {
-		ttl := c09Now - int64(lim.Age)
-		for _, s := range st {
-			if s.Count > 0 && s.LastTS < ttl {
-				v = append(v, "age")
-				break
-			}
-		}
+	if len(st) > 0 && c09Expired(st[0], lim) {
+		v = append(v, "age")
 	}
 	var msgs, bytes int64
 	for _, s := range st {
@@ -110,9 +118,49 @@ func c09Violated(st []c09Seg, lim c09Limits) []string {
 	return v
 }
 
-// c09ExpectedKeep: index of the first segment a correct cleaner keeps (used in
-// witnesses and for coverage classes; the verdict uses the necessity and
-// sufficiency predicates directly).
+// c09AgeKeep: index of the first segment the age limit ALONE keeps (the first
+// segment from the oldest end that is not expired, or the newest).
+func c09AgeKeep(st []c09Seg, lim c09Limits) int {
+	k := 0
+	for k < len(st)-1 && c09Expired(st[k], lim) {
+		k++
+	}
+	return k
+}
+
+// c09NonMonotonic: some segment was last written before its predecessor.
+func c09NonMonotonic(st []c09Seg) bool {
+	last, have := int64(0), false
+	for _, s := range st {
+		if s.Count == 0 {
+			continue
+		}
+		if have && s.LastTS < last {
+			return true
+		}
+		last, have = s.LastTS, true
+	}
+	return false
+}
+
+func c09AgePattern(st []c09Seg, lim c09Limits) string {
+	if lim.Age == 0 {
+		return "-"
+	}
+	b := make([]byte, len(st))
+	for i, s := range st {
+		b[i] = 'n'
+		if c09Expired(s, lim) {
+			b[i] = 'E'
+		}
+	}
+	return string(b)
+}
+
+// c09ExpectedKeep: index of the first segment a correct cleaner keeps = the
+// first index from the oldest end at which the remaining log violates no limit
+// (used in witnesses and for coverage classes; the verdict uses the necessity
+// and sufficiency predicates directly).
 func c09ExpectedKeep(st []c09Seg, lim c09Limits) int {
 	for k := 0; k < len(st)-1; k++ {
 		if len(c09Violated(st[k:], lim)) == 0 {
@@ -136,6 +184,11 @@ type c09Env struct {
 	trace []string
 
 	cleans, removedSegs, readsChecked int
+
+	// ageExposed: the last cleanAndCheck reported (once) that the count / size
+	// limits exposed an expired segment at the oldest end which the same Clean
+	// did not remove; a following Clean removing it is the same finding.
+	ageExposed bool
 }
 
 func c09Opts(tag string, maxSeg int64, lim c09Limits) Options {
@@ -209,7 +262,9 @@ func c09RecBytes(vlen int) int64 {
 
 // appendBatch appends len(ts) messages in ONE Append call (they land in one
 // segment; a roll can only happen before the batch).  ts are the harness-chosen
-// message timestamps (non-decreasing).
+// message timestamps (non-decreasing within a batch; from one batch to the next
+// they may go backwards: a new leader with a slower clock).  A segment's last
+// write time is the timestamp of the last message appended to it.
 func (e *c09Env) appendBatch(vlen int, ts []int64) bool {
 	n := len(ts)
 	msgs := make([]*Message, n)
@@ -349,20 +404,56 @@ func (e *c09Env) cleanAndCheck(rng *kit.RNG, full bool) (removed int, ok bool) {
 			}
 		}
 	}
-	// NECESSITY: keeping the newest removed segment as well would violate a configured limit
-	if k > 0 {
-		if v := c09Violated(pre[k-1:], e.lim); len(v) == 0 {
-			e.fail("C09:removed-more-than-needed:"+e.lim.kinds(),
-				fmt.Sprintf("segment base %d was removed although the log from it on satisfies every configured limit (%s): kept from index %d, documented semantics keep from index %d; before %v",
-					pre[k-1].Base, e.lim, k, want, pre), wit)
+	wit["expired_flags_before_E_is_older_than_cutoff"] = c09AgePattern(pre, e.lim)
+	if c09NonMonotonic(pre) {
+		e.rep.Count("cleans_nonmonotonic_last_write_times", 1)
+	}
+	if e.lim.Age > 0 {
+		for i := want + 1; i < len(pre); i++ {
+			if c09Expired(pre[i], e.lim) {
+				// an expired segment sits behind a segment that must be kept
+				e.rep.Count("cleans_expired_segment_behind_kept_one", 1)
+				if i == len(pre)-1 {
+					e.rep.Count("cleans_expired_newest_behind_kept_one", 1)
+				}
+				break
+			}
 		}
 	}
-	// SUFFICIENCY: every configured limit holds on the survivors unless only the newest is left
+	// NECESSITY: no removed segment could have been kept, i.e. for EVERY removed
+	// segment j the log from j on violates a configured limit (age: segment j
+	// itself is expired).  With non-monotonic last-write times this is more than
+	// the statement about the newest removed segment.
+	for j := k - 1; j >= 0; j-- {
+		if v := c09Violated(pre[j:], e.lim); len(v) == 0 {
+			fp := "C09:removed-more-than-needed:" + e.lim.kinds()
+			if j < k-1 {
+				fp += ":unexpired-before-expired"
+			}
+			e.fail(fp,
+				fmt.Sprintf("segment base %d (index %d) was removed although the log from it on satisfies every configured limit (%s; expired flags %s): kept from index %d, documented semantics keep from index %d; before %v",
+					pre[j].Base, j, e.lim, c09AgePattern(pre, e.lim), k, want, pre), wit)
+			break
+		}
+	}
+	// SUFFICIENCY: every configured limit holds on the survivors unless only the
+	// newest is left (age: the oldest survivor is not expired)
+	e.ageExposed = false
 	if len(post) > 1 {
 		if v := c09Violated(post, e.lim); len(v) > 0 {
-			e.fail("C09:limit-not-enforced:"+strings.Join(v, "+"),
-				fmt.Sprintf("after Clean the log still violates %v (%s) with %d segments left: %v; documented semantics keep from index %d of %v",
-					v, e.lim, len(post), post, want, pre), wit)
+			fp := "C09:limit-not-enforced:" + strings.Join(v, "+")
+			what := ""
+			if len(v) == 1 && v[0] == "age" && k > c09AgeKeep(pre, e.lim) {
+				// the age limit alone stops at an unexpired segment further
+				// up; the count / size limits removed that one, which puts an
+				// expired segment at the oldest end
+				fp += ":expired-segment-exposed-by-count-or-size-limit"
+				what = " (the age limit alone keeps from index " + fmt.Sprint(c09AgeKeep(pre, e.lim)) + "; the count/size limits removed further segments and exposed an expired one at the oldest end, which this Clean left in place)"
+				e.ageExposed = true
+			}
+			e.fail(fp,
+				fmt.Sprintf("after Clean the log still violates %v (%s; expired flags before %s) with %d segments left: %v; documented semantics keep from index %d of %v%s",
+					v, e.lim, c09AgePattern(pre, e.lim), len(post), post, want, pre, what), wit)
 		}
 	}
 	// OldestOffset / NewestOffset
